@@ -433,8 +433,9 @@ func NewUpstream(addr string, opt Opt) (_ Upstream, err error) {
 			quicConfig := newDefaultClientQuicConfig()
 			quicConfig.MaxIdleTimeout = idleConnTimeout
 
-			defer closeIfFuncErr(quicTransport)
-			addonCloser = quicTransport
+			// Note: quic.Transport.Close() does not close a Conn that it did not create.
+			addonCloser = closers{quicTransport, conn}
+			defer closeIfFuncErr(addonCloser)
 			t = &http3.RoundTripper{
 				TLSClientConfig: opt.TLSConfig,
 				QUICConfig:      quicConfig,
@@ -549,12 +550,16 @@ func NewUpstream(addr string, opt Opt) (_ Upstream, err error) {
 			return transport.NewQuicDnsConn(c), nil
 		}
 
-		return transport.NewPipelineTransport(transport.PipelineOpts{
-			DialContext: dialDnsConn,
-			// Quic rfc recommendation is 100. Some implications use 65535.
-			MaxConcurrentQueryWhileDialing: 90,
-			Logger:                         opt.Logger,
-		}), nil
+		return &upstreamWithClosers{
+			Upstream: transport.NewPipelineTransport(transport.PipelineOpts{
+				DialContext: dialDnsConn,
+				// Quic rfc recommendation is 100. Some implications use 65535.
+				MaxConcurrentQueryWhileDialing: 90,
+				Logger:                         opt.Logger,
+			}),
+			// Note: quic.Transport.Close() does not close a Conn that it did not create.
+			closers: closers{t, uc},
+		}, nil
 	default:
 		return nil, fmt.Errorf("unsupported protocol [%s]", addrURL.Scheme)
 	}
@@ -613,4 +618,32 @@ func newDefaultClientQuicConfig() *quic.Config {
 		KeepAlivePeriod:      time.Second * 25,
 		HandshakeIdleTimeout: tlsHandshakeTimeout,
 	}
+}
+
+// closers closes its members in order. It returns the first error.
+type closers []io.Closer
+
+func (cs closers) Close() error {
+	var err error
+	for _, c := range cs {
+		if cErr := c.Close(); cErr != nil && err == nil {
+			err = cErr
+		}
+	}
+	return err
+}
+
+// upstreamWithClosers closes the Upstream and then the resources
+// that the Upstream was built on.
+type upstreamWithClosers struct {
+	Upstream
+	closers closers
+}
+
+func (u *upstreamWithClosers) Close() error {
+	err := u.Upstream.Close()
+	if cErr := u.closers.Close(); cErr != nil && err == nil {
+		err = cErr
+	}
+	return err
 }
